@@ -2,8 +2,13 @@
 import json, os
 from verifkit import read_lines
 
-REQUIRED = [
-]
+REQUIRED = ["DaeVerif.C08.Props." + n for n in [
+    "lookup_in_history", "served_only_live_and_scoped", "fresh_ttl_within_slack", "fresh_ttl_within_slack_nanos",
+    "stale_served_at_once", "refresh_only_when_none_in_flight", "in_flight_refreshes_distinct",
+    "fixed_ttl_applies", "fixed_ttl_absent", "key_case_insensitive", "key_injective", "base_of_response_key",
+    "janitor_time_step", "janitor_keeps", "janitor_evicts_least_recently_used", "heap_selects_oldest",
+    "lookup_and_insert_stamp_last_access",
+]]
 
 
 def kvs(line):
@@ -54,6 +59,43 @@ def run(ctx):
                    {"stream": "c08", "line": ln, "op": op, "impl": im, "model": mo,
                     "history_since_cfg": history(ln) if ln > 0 else [],
                     "replay": "VERIF_SEED=%d ./check C08 %s" % (ctx.seed, ctx.tier)})
+
+    # Property-level oracles on the implementation's own answers in the three bracketed scenarios
+    # (each was a genuine defect of the pinned tree, repaired by a `fix:` commit; see known_findings.jsonl).
+    def segment(name):
+        try:
+            a = op_lines.index(f"note {name} begin")
+            b = op_lines.index(f"note {name} end")
+        except ValueError:
+            return None
+        return list(zip(op_lines[a + 1:b], impl_lines[a + 1:b]))
+
+    seg = segment("fixed-ttl-case")
+    if seg is not None:
+        looks = [im for op, im in seg if op.startswith("look ")]
+        # lower-case question then mixed-case question: both must get the fixed TTL 10 (hit before +10 s, miss after)
+        ok = len(looks) == 4 and all(l.startswith("hit") and "ttl=10 " in l for l in (looks[0], looks[2])) \
+            and looks[1] == "miss" and looks[3] == "miss"
+        if not ok:
+            ctx.report("fixed_domain_ttl is not applied independently of the case of the question name: "
+                       "fixed_domain_ttl{ddns.example.org:10}, reply TTL 3600; lookups at +9 s/+11 s after a lower-case and "
+                       f"after a mixed-case question: {looks}", {"scenario": seg}, key="c08-fixed-ttl-case-sensitive")
+    seg = segment("lru-after-refresh")
+    if seg is not None:
+        jan = [im for op, im in seg if op.startswith("jan ")]
+        keys = [im for op, im in seg if op == "keys"]
+        a_key = "612e746573742e31"  # a.test.1
+        if not (jan and a_key not in jan[0] and keys and a_key in keys[0]):
+            ctx.report("LRU eviction removed the entry that was used and refreshed last (a.test) instead of the older one: "
+                       f"janitor {jan}, left {keys}", {"scenario": seg}, key="c08-lru-insert-not-a-use")
+    seg = segment("failed-refresh")
+    if seg is not None:
+        looks = [im for op, im in seg if op.startswith("look ")]
+        if not (len(looks) == 3 and looks[1].startswith("hit") and looks[1].endswith("rf=1")
+                and looks[2].startswith("hit") and looks[2].endswith("rf=0")):
+            ctx.report("a background refresh that ended without a new answer did not leave the stale answer served inside "
+                       f"its window with the latch released: lookups {looks}", {"scenario": seg},
+                       key="c08-failed-refresh-evicts-stale")
 
     n_look = n_hit = 0
     distinct = set()
